@@ -614,8 +614,9 @@ def check_determinism(case, stats):
         r = subprocess.run([sys.executable] + flags + ["-c", DIGEST_SCRIPT, os.path.join(REPO, "python"), VERIF, order], capture_output=True, text=True, env=env, timeout=600,
                            cwd=os.getcwd())
         if r.returncode != 0:
-            if flavour != "plain" and "vlib" not in r.stderr[-1500:].split("Error")[0][-400:] and "gherkin" in r.stderr:
-                raise Violation(case, "the library fails in a %s interpreter: %s" % (flavour, r.stderr[-600:]))
+            if flavour != "plain" and results:
+                # the very same script already succeeded in a plain interpreter: the flavour is what breaks the library
+                raise Violation(case, "the pipeline that works in a plain interpreter fails in a %s interpreter: %s" % (flavour, r.stderr[-600:]))
             raise HarnessError("determinism subprocess (%s) failed: %s" % (flavour, r.stderr[-800:]))
         results[(hs, order, flavour)] = json.loads(r.stdout.strip().splitlines()[-1])
         stats.case(("run", hs, order, flavour), True, sample={"PYTHONHASHSEED": hs, "order": order, "interpreter": flavour, "documents": len(results[(hs, order, flavour)])})
